@@ -102,6 +102,14 @@ func NewRunner(
 		return nil, err
 	}
 
+	// Validate: a newer version of Juno targeted migrations this binary does not know about. They
+	// may be half-way through (intermediate state saved, not yet in CurrentVersion), and Run would
+	// erase them from LastTargetVersion, silently dropping a previous opt-in.
+	err = validateNoUnknownTarget(metadata.LastTargetVersion, registry.Count())
+	if err != nil {
+		return nil, err
+	}
+
 	return &MigrationRunner{
 		entries:       registry.Entries(),
 		targetVersion: targetVersion,
@@ -210,6 +218,18 @@ func (mr *MigrationRunner) runMigration(ctx context.Context, migrationIndex uint
 // Returns an error if current has migrations that target doesn't have, nil otherwise.
 func validateNoVersionDowngrade(current, target SchemaVersion) error {
 	if !target.Contains(current) {
+		return errors.New(
+			"database is from a newer, incompatible version of Juno; upgrade to use this database",
+		)
+	}
+
+	return nil
+}
+
+// validateNoUnknownTarget checks if a previous run targeted migrations beyond the ones
+// registered in this binary (the database was opened by a newer version of Juno).
+func validateNoUnknownTarget(lastTargetVersion SchemaVersion, registered int) error {
+	if lastTargetVersion.HighestBit() >= registered {
 		return errors.New(
 			"database is from a newer, incompatible version of Juno; upgrade to use this database",
 		)
